@@ -90,6 +90,15 @@ C04_SCHED_RUN = {
     "thorough": {"parts": 16, "args": [], "deadline": 1200, "bounds": "preemption bound 4 (3 with 3 client threads), 7 client program sets x 4 bus behaviours, plain and enhanced"},
 }
 
+C04_TSAN_RUN = {
+    "harness": "c04_tsan", "variant": "tsan",
+    "sources": ["engines/schedmc/c04_tsan.cpp", "engines/busmc/busworld.cpp"],
+    "flags": ["-DBUSWORLD_REAL_COND"],
+    "deps": DEPS + ["engines/schedmc/tsan_suppressions.txt"],
+    "tsan_options": "suppressions=/verif/engines/schedmc/tsan_suppressions.txt:exitcode=66:halt_on_error=1",
+    "quick": {"parts": 6, "args": [], "deadline": 100, "bounds": "60 free-running iterations x 3 bus behaviours x 2 devices"},
+    "thorough": {"parts": 6, "args": [], "deadline": 600, "bounds": "400 free-running iterations x 3 bus behaviours x 2 devices"},
+}
 CHECKS["C04"] = {
     "engine": "busmc+schedmc", "design_ref": "5/C04",
     "level": "model_checking",
@@ -101,7 +110,7 @@ CHECKS["C04"] = {
     "rule": "scenario = device x request mix (waited / self-deleting / restarting / re-submitted, from start or arriving at any read call) x bus-lost retry setting; "
             "all environment choice sequences with <=k faults/deviations and <=r arrivals; distinct = distinct delivered symbol sequences",
     "assumptions": ["the waiter is emulated by polling the finished queue at every read call"],
-    "runs": [C04_FAULT_RUN, C04_SCHED_RUN],
+    "runs": [C04_FAULT_RUN, C04_SCHED_RUN, C04_TSAN_RUN],
 }
 
 C20_BUS_RUN = bus("C20", ["--validate-every", 0], ["--validate-every", 0], variant="san")
